@@ -218,22 +218,30 @@ def ensure_fuzz(cfg, target):
     """Link a libFuzzer target engine/fuzz/<target>.c against cfg's library (built with fuzzer-no-link coverage)."""
     ensure(cfg, runner=False)
     d = bdir(cfg)
-    lib = glob.glob(os.path.join(d, "lib", "librelic_s*.a"))
-    src = os.path.join(VERIF, "engine", "fuzz", target + ".c")
-    exe = os.path.join(d, "fz_" + target)
-    deps = [src] + lib
-    if os.path.exists(exe) and os.path.getmtime(exe) >= max(os.path.getmtime(p) for p in deps):
+    lock = open(os.path.join(d, ".lock_fz"), "w")
+    fcntl.flock(lock, fcntl.LOCK_EX)
+    try:
+        lib = glob.glob(os.path.join(d, "lib", "librelic_s*.a"))
+        src = os.path.join(VERIF, "engine", "fuzz", target + ".c")
+        exe = os.path.join(d, "fz_" + target)
+        deps = [src] + lib + glob.glob(os.path.join(VERIF, "engine", "fuzz", "*.c"))
+        if os.path.exists(exe) and os.path.getmtime(exe) >= max(os.path.getmtime(p) for p in deps):
+            return exe
+        incs = ["-I" + os.path.join(d, "include"), "-I" + os.path.join(REPO, "include"),
+                "-I" + os.path.join(REPO, "include", "low"), "-I" + os.path.join(REPO, "src", "tmpl"),
+                "-I" + os.path.join(VERIF, "engine", "shim"), "-I" + os.path.join(VERIF, "engine", "fuzz")]
+        flags = (COMMON + " " + SAN + " -fsanitize=fuzzer").split()
+        tmp = exe + ".tmp.%d" % os.getpid()
+        cmd = ["clang"] + flags + ["-D_GNU_SOURCE", "-DVS_FUZZ", "-Wno-unused-function", src] + lib + incs + \
+            ["-lm", "-lpthread", "-o", tmp]
+        rc, out = _run(cmd, log=os.path.join(d, "build.log"))
+        if rc != 0:
+            raise BuildError("fuzz target link failed (%s/%s):\n%s" % (cfg, target, out[-4000:]))
+        os.replace(tmp, exe)
         return exe
-    incs = ["-I" + os.path.join(d, "include"), "-I" + os.path.join(REPO, "include"),
-            "-I" + os.path.join(REPO, "include", "low"), "-I" + os.path.join(REPO, "src", "tmpl"),
-            "-I" + os.path.join(VERIF, "engine", "shim")]
-    flags = (COMMON + " " + SAN + " -fsanitize=fuzzer").split()
-    cmd = ["clang"] + flags + ["-D_GNU_SOURCE", "-DVS_FUZZ", "-Wno-unused-function", src] + lib + incs + \
-        ["-lm", "-lpthread", "-o", exe]
-    rc, out = _run(cmd, log=os.path.join(d, "build.log"))
-    if rc != 0:
-        raise BuildError("fuzz target link failed (%s/%s):\n%s" % (cfg, target, out[-4000:]))
-    return exe
+    finally:
+        fcntl.flock(lock, fcntl.LOCK_UN)
+        lock.close()
 
 
 def conf_defines(cfg):
